@@ -54,7 +54,7 @@ var reCollection = regexp.MustCompile(`^([a-z]|X[0-9]+)s$`)
 func C07(e *core.Env) {
 	res := e.Res
 	res.Rule = "cases = well-formed declarative profiles that must compile: (a) N nested constraints side by side in one validation, N in 1..40 crossing the 25-letter boundary (quick: 14 values, thorough: all), (b) nesting depth 1..7, (c) 1..30 validations over the three levels, (d) every documented constraint kind x path shape (single, sequence, alternative, inverse, alternative inside a sequence inside an alternative, @type), (e) several constraints of one kind in one rule body (or / if / not-and), with messages of 0..3 placeholders, (f) seeded random formulas; " +
-		"for (a) and (b) the quantified variables and collections found in the real module (parsed with the engine's parser) must be exactly the model's var_name / plural; non-trivial = every case; distinct by profile text"
+		"for (a) and (b) the quantified variables and collections found in the real module (parsed with the engine's parser) must be exactly the model's var_name / plural; (g) 24 texts (each control / format / astral / quoting character on its own) x {profile name, validation name, message, list value}; non-trivial = every case; distinct by profile text"
 	compile := func(label, profile string, known func(err error) bool) bool {
 		_, err := pkg.CompileProfile(profile, false, nil)
 		if err == nil {
@@ -252,6 +252,30 @@ func C07(e *core.Env) {
 		compile("random formula", p, nil)
 		res.Case("random|"+f.String(), true)
 		res.Count("family=random")
+	}
+	// (g) texts: the translator pastes names, messages and list values into source text; each unusual character on its own
+	// (no quote, backslash or newline next to it) in each position
+	texts := []string{"plain", "tab\there", "esc\x1b[1mbold", "form\ffeed", "vt\vx", "soh\x01x", "del\x7fx", "nbsp\u00a0x", "zwj\u200dx", "ls\u2028x", "flag \U0001F3F4\U000E0067\U000E0062\U000E0065\U000E006E\U000E0067\U000E007F",
+		"pua \U0010FFFD", "cr\rx", "quote\"x", "back\\slash", "percent % d", "brace { } {{", "back`tick", "dollar $node", "é ü 漢字 🎉", "#comment", "a: b", "- item", "ünï-cødé"}
+	for ti, t := range texts {
+		for _, pos := range []string{"profile name", "validation name", "message", "list value"} {
+			pn, vn, msg, lv := "Texts", "v", "m", "x"
+			switch pos {
+			case "profile name":
+				pn = t
+			case "validation name":
+				vn = t
+			case "message":
+				msg = t
+			case "list value":
+				lv = t
+			}
+			p := "#%Validation Profile 1.0\nprofile: " + yq(pn) + "\nprefixes:\n  ex: http://example.org/ns#\nviolation:\n  - " + yq(vn) + "\nvalidations:\n  " + yq(vn) +
+				":\n    targetClass: ex.T\n    message: " + yq(msg) + "\n    propertyConstraints:\n      ex.a:\n        in: [ " + yq(lv) + ", other ]\n      ex.b:\n        containsSome: [ " + yq(lv) + " ]\n"
+			compile(fmt.Sprintf("text %d as %s", ti, pos), p, nil)
+			res.Case(fmt.Sprintf("text|%d|%s", ti, pos), true)
+			res.Count("family=texts")
+		}
 	}
 	// the model's declaration list, for the record
 	ans := e.Driver.MustEval(sx.L(sx.A("c07"), sx.A("declared"), sx.I(3), sx.I(2)))
